@@ -692,6 +692,61 @@ def run(R):
                 R.disagree("mesh-to-precomputed output vs affine + mm_to_nm + write_mesh", case,
                            data[1].hex()[:80], "model bytes differ")
 
+    # ------------------------------------------------------------ library entry point, several meshes
+    # The same transform array (and the same options dict) serves several conversions in one process:
+    # every one of them must give 1e6 x (M v + t), and the caller's matrix must not change.
+    for i in range(10 if quick else 60):
+        while True:
+            M = [[rng.randrange(-3, 4) for _ in range(3)] + [rng.randrange(-50, 51)] for _ in range(3)]
+            if det3(M) != 0:
+                break
+        Mnp = np.array(M + ([[0, 0, 0, 1]] if rng.random() < 0.5 else []), dtype=np.float64)
+        M_before = Mnp.copy()
+        dest = new_dataset(f"lib{i}", None)
+        opts = {"gzip": False}
+        case = {"library_call": "mesh_file_to_precomputed x3 with one coord_transform array", "M": M}
+        R.case(case, nontrivial=True)
+        for k in range(3):
+            vs, ts, c = closed_mesh()
+            gii = os.path.join(R.tmp, f"lib{i}_{k}.surf.gii")
+            pts = np.array(vs, dtype="<f4").reshape(len(vs), 3)
+            tri = np.array(ts, dtype="<i4").reshape(len(ts), 3)
+            nib.save(GiftiImage(darrays=[
+                GiftiDataArray(pts, intent="NIFTI_INTENT_POINTSET", datatype="NIFTI_TYPE_FLOAT32"),
+                GiftiDataArray(tri, intent="NIFTI_INTENT_TRIANGLE", datatype="NIFTI_TYPE_INT32")]), gii)
+            rc = outcome_of(lambda: mesh_to_precomputed.mesh_file_to_precomputed(
+                gii, dest, mesh_name=f"f{k}", coord_transform=Mnp, options=opts))
+            R.count(f"mesh-lib:call{k}:{rc[0]}")
+            if rc[0] != "ok":
+                R.violation("mesh_file_to_precomputed failed on a repeated call with the same transform", dict(case, call=k),
+                            {"rc": rc})
+                break
+            data = outcome_of(lambda: ngacc.get_accessor_for_url(dest, {"gzip": False}).fetch_file(f"mesh/f{k}"))
+            parsed = spec_parse_py(data[1]) if data[0] == "ok" else None
+            if parsed is None:
+                R.violation("mesh fragment of a repeated library call is missing or invalid", dict(case, call=k), {})
+                break
+            Mf = [[Fraction(x) for x in row] for row in M]
+            got_v = np.array(parsed[0], dtype="<u4").reshape(len(vs), 3).view("<f4")
+            bad = None
+            for v, w in zip(vs, got_v.tolist()):
+                ex = [x * 10 ** 6 for x in frac_apply(Mf, v)]
+                for a in range(3):
+                    mag = (sum(abs(Mf[a][j] * v[j]) for j in range(3)) + abs(Mf[a][3])) * 10 ** 6
+                    if abs(Fraction(w[a]) - ex[a]) > mag * Fraction(1, 2 ** 21):
+                        bad = (w, [float(x) for x in ex])
+                        break
+                if bad:
+                    break
+            if bad:
+                R.violation("vertex of a later conversion with the same transform array is not 1e6 x (M v + t)",
+                            dict(case, call=k), {"got": bad[0], "want": bad[1]})
+                break
+            if not np.array_equal(Mnp, M_before):
+                R.violation("mesh_file_to_precomputed modified the caller's coord_transform", dict(case, call=k),
+                            {"before": M_before.tolist(), "after": Mnp.tolist()})
+                break
+
     # ============================================================ VTK export
     ver = neuroglancer_scripts.__version__.encode()
     vcases = []
